@@ -64,14 +64,46 @@ CROSSING = [0.015, 0.0125, 0.008, 0.004]
 # environment
 # ----------------------------------------------------------------------------------------------
 
+_DYN: dict = {}          # airports placed by the harness during the run: code -> (lat, lon, elevation ft)
+_DATA_DIR = None
+
+
+def place(base: str, dist_km: float, az: float):
+    """(lat, lon) at a given geodesic distance and azimuth from a listed airport"""
+    from pyproj import Geod
+    lat, lon, _ = AIRPORTS[base]
+    lon2, lat2, _ = Geod(ellps='WGS84').fwd(lon, lat, az, dist_km * 1000.0)
+    return float(lat2), float(lon2)
+
+
+def ensure_airport(code: str, lat: float, lon: float, elev_ft: float):
+    """Make `code` known to AEIC.utils.airports (rewrites the harness airports file, drops the module's cache)."""
+    if _DYN.get(code) == (lat, lon, elev_ft):
+        return
+    assert code not in AIRPORTS
+    _DYN[code] = (lat, lon, elev_ft)
+    write_airports(_DATA_DIR)
+    import AEIC.utils.airports as ap
+    ap._airports = None
+
+
+def dyn_code(defn) -> str:
+    import zlib
+    al = 'ABCDEFGHIJKLMNOPQRSTUVWXYZ0123456789'
+    h = zlib.crc32(repr(tuple(defn)).encode())
+    return 'Q' + al[h % 36] + al[(h // 36) % 36]
+
+
 def write_airports(data_dir: Path):
+    global _DATA_DIR
+    _DATA_DIR = data_dir
     d = data_dir / 'airports'
     d.mkdir(parents=True, exist_ok=True)
     hdr = ('"id","ident","type","name","latitude_deg","longitude_deg","elevation_ft","continent","iso_country",'
            '"iso_region","municipality","scheduled_service","icao_code","iata_code","gps_code","local_code",'
            '"home_link","wikipedia_link","keywords"')
     rows = [hdr]
-    for i, (code, (lat, lon, el)) in enumerate(AIRPORTS.items()):
+    for i, (code, (lat, lon, el)) in enumerate(list(AIRPORTS.items()) + list(_DYN.items())):
         rows.append(f'"{9000 + i}","X{code}","large_airport","{code} test","{lat!r}","{lon!r}","{el!r}","NA","US",'
                     f'"US-XX","{code}","yes","X{code}","{code}","X{code}","","","",""')
     (d / 'airports.csv').write_text('\n'.join(rows) + '\n')
@@ -205,6 +237,8 @@ def detect_f1_fixed() -> bool:
 def mission_of(case):
     from AEIC.missions import Mission
     from AEIC.missions.mission import iso_to_timestamp
+    if case.get('dest_def'):
+        ensure_airport(case['d'], *case['dest_def'])
     return Mission(origin=case['o'], destination=case['d'], departure=iso_to_timestamp('2024-09-01T12:00:00'),
                    arrival=iso_to_timestamp('2024-09-01T18:00:00'), aircraft_type='738',
                    load_factor=case['lf'])
@@ -767,6 +801,45 @@ def gen_case(rng, f1_fixed):
 # run
 # ----------------------------------------------------------------------------------------------
 
+def boundary_cases(chk: Check, rng, n_tables: int, dense: int):
+    """Directed route-length sweep around the too-short boundary: for a table and an origin, bisect the shortest route
+    that is still flown (top of climb before the estimated top of descent), then sample route lengths densely on both
+    sides of it, far enough below to cover every route whose estimated top of descent is still ahead of the origin."""
+    tables = [None] + [gen_table(rng, False, c) for c in (41000, 37000, 33000)]
+    out = []
+    for table in tables[:n_tables]:
+        for base, az in (('BOS', 250.0), ('DEN', 95.0), ('LYR', 300.0))[: 2 if n_tables < 3 else 3]:
+            elev = AIRPORTS[base][2]
+
+            def case_at(dist_km, fr=(0.02, 0.02, 0.02)):
+                lat, lon = place(base, dist_km, az)
+                defn = [round(lat, 7), round(lon, 7), elev]
+                return {'o': base, 'd': dyn_code(defn), 'dest_def': defn, 'lf': 1.0, 'f_clm': fr[0], 'f_crz': fr[1],
+                        'f_des': fr[2], 'iterate': False, 'max_iters': 5, 'reltol': 1e-2, 'given_mass': None,
+                        'table': table, 'wind': False, 'route_km': dist_km}
+
+            def flown(dist_km):
+                return fly_impl(case_at(dist_km))['ok']
+
+            lo, hi = 60.0, 900.0
+            if flown(lo) or not flown(hi):
+                chk.count('boundary:not-bracketed')
+                continue
+            while hi - lo > 1.0:
+                mid = (lo + hi) / 2
+                lo, hi = (lo, mid) if flown(mid) else (mid, hi)
+            chk.count('boundary:bisected')
+            offs = [-95, -80, -65, -50, -38, -27, -18, -10, -5, -2, -0.6, 0.6, 2, 6, 15, 40]
+            if dense < len(offs):
+                offs = sorted(rng.sample(offs[:10], max(1, dense - 3)) + [-0.6, 0.6, 6])
+            for off in offs:
+                fr = rng.choice([(0.02, 0.02, 0.02), (0.01, 0.01, 0.01), (0.02, 0.0125, 0.02), (0.01, 0.02, 0.0125)])
+                c = case_at(round(hi + off, 3), fr)
+                c['iterate'] = rng.random() < 0.2
+                out.append(c)
+    return out
+
+
 def extract(chk: Check) -> bool:
     from translator import c02_extract, py2coq
     name = 'extract:units.py+storage/container.py+trajectories/{trajectory,ground_track}.py+builders/{base,legacy}.py'
@@ -906,6 +979,8 @@ def check_flights(chk: Check, cases, f1_fixed: bool, interp_fixed: bool, gfix: b
                                                  or im['o'][2] > 1500 or abs(im['o'][0] - im['d'][0]) > 180))
         chk.count('flight:' + ('returned' if im['ok'] else im['err']))
         chk.count('steps:' + ('aligned' if not unaligned else 'unaligned'))
+        if case.get('route_km') is not None:
+            chk.count('boundary-sweep:' + ('returned' if im['ok'] else im['err']))
         if case.get('wind'):
             chk.count('wind:' + ('returned' if im['ok'] else im['err']))
         if case.get('given_mass') is not None:
@@ -998,7 +1073,8 @@ def run(chk: Check):
         chk.notes['given_starting_mass'] = 'fuel load derived (repaired)' if gfix else \
             'fuel load left None, fly raises TypeError (as coded, FC17a: C17\'s finding)'
         check_container(chk, f1_fixed)
-        cases = load_corpus(chk) + [gen_case(chk.rng, f1_fixed) for _ in range(chk.n(110, 1200))]
+        cases = load_corpus(chk) + boundary_cases(chk, chk.rng, chk.n(2, 4), chk.n(9, 16)) \
+            + [gen_case(chk.rng, f1_fixed) for _ in range(chk.n(100, 1200))]
         check_flights(chk, [c for c in cases if c.get('kind') != 'container'], f1_fixed, interp_fixed, gfix)
     finally:
         teardown_env()
